@@ -173,7 +173,8 @@ typedef var_opt_sketch<Item, talloc<Item>> vo_t;
 struct VoObj : ObjBase<VoObj, vo_t> {
   using ObjBase::ObjBase;
   int kind() const override { return 4; }
-  void update(int64_t v, int64_t w, bool mv, Out&) override { Item it(v); double wt = (double)(w <= 0 ? 1 : w); if (mv) s.update(std::move(it), wt); else s.update(it, wt); }
+  // E: (h_, r_) after the update: which items stay in the heap depends on the weights (model input)
+  void update(int64_t v, int64_t w, bool mv, Out& o) override { Item it(v); double wt = (double)(w <= 0 ? 1 : w); if (mv) s.update(std::move(it), wt); else s.update(it, wt); o.E((I)s.h_); o.E((I)s.r_); }
   void reset() override { s.reset(); }
   long retained() const override { return (long)s.get_num_samples(); }
   void query() override { long c = 0; for (auto it = s.begin(); it != s.end(); ++it) { c += ((*it).first.get() != 0x7fffffff); } (void)c; }
@@ -369,6 +370,8 @@ inline Obj* make(int kind, long p1, long p2, int arena) {
   if (kind == 2 && (p1 > 12 || p2 > 12)) throw std::invalid_argument("parameter out of range");
   if ((kind == 1 || kind == 9 || kind == 4) && p2 > 3) throw std::invalid_argument("parameter out of range");
   if (kind == 7 && p2 > 2) throw std::invalid_argument("parameter out of range");
+  if (kind == 3 && (p1 < 4 || p1 > 255 || (p1 & 1) || p2 > 1)) throw std::invalid_argument("parameter out of range");   // req rounds k silently
+  if (kind == 4 && p1 < 1) throw std::invalid_argument("parameter out of range");
   switch (kind) {
   case 0: return new KllObj((uint16_t)p1, std::less<Item>(), talloc<Item>(arena));
   case 1: {
